@@ -104,6 +104,25 @@ func init() {
 					cs = append(cs, cse)
 				}
 			}
+			// pools of a few thousand workers (sizes that are no multiple of anything convenient): still one handle per
+			// worker and never more than c at once
+			nbig := 2
+			if tier == "thorough" {
+				nbig = 6
+			}
+			for i := 0; i < nbig; i++ {
+				c := []int{1500, 2049, 3000, 1025, 4097, 2500}[i]
+				mode := pick(r, "constant", "custom", "staged")
+				p := c04Params{Body: "sleep", PerTick: c, RunMS: 700}
+				p.Spec = engine.RateSpec(mode, p.PerTick, 20, c)
+				p.Spec.IgnoreDropped = true
+				p.Desc = fmt.Sprintf("mode=%s c=%d perTick=%d body=sleep rendezvous=false (large pool)", mode, c, p.PerTick)
+				cse := core.MkCase("C04", "run", 7800+i, seed, p)
+				cse.Solo = true
+				cse.Procs = 16
+				cse.TimeoutMS = 90000
+				cs = append(cs, cse)
+			}
 			// ticks far beyond 32 bits: every worker still gets its request
 			nhu := 3
 			if tier == "thorough" {
@@ -288,6 +307,10 @@ func c04Run(c *core.Case, o *core.Outcome) {
 			o.Violate("handle:"+p.Desc, "%s (%s)", joinProblems(hp), p.Desc)
 			return
 		}
+	}
+	if !p.Rendezvous && cc >= 1000 && k.Started.Load() == 0 {
+		o.Inconc("the large pool started no iteration (%s)", p.Desc)
+		return
 	}
 	if hw := k.HighWater.Load(); hw > cc {
 		o.Violate("upper:"+p.Desc, "%d iteration functions were executing at once with concurrency %d (%s)", hw, cc, p.Desc)
